@@ -56,6 +56,10 @@ class Findings(object):
         return None
 
 
+class FailFast(Exception):
+    pass
+
+
 class Ctx(object):
     def __init__(self, prop, tier, seed, level="model_checking"):
         self.prop, self.tier, self.seed, self.level = prop, tier, int(seed), level
@@ -129,6 +133,8 @@ class Ctx(object):
             self.violations.append((path, item))
         else:
             self.violations.append((self.violations[0][0], item))
+        if os.environ.get("VERIF_FAILFAST") == "1":
+            raise FailFast()
         return "violation"
 
     # ---- end of run
